@@ -45,6 +45,7 @@ def run(prop, tier, extra=None):
         p.push(scen[i:i + chunk], "w%d" % (i // chunk), timeout=3000)
     st2 = {}
     p2 = None
+    cat_exec = 0
     if prop in ("C02", "C04"):
         # edit histories of every option container (spec/wire/ContainerGen, ContainerAbs)
         hist, g3 = vlib.tlc_generate("wire/ContainerGen", "ContainerGen_q.cfg" if quick else "ContainerGen_t.cfg", timeout=1800)
@@ -60,26 +61,29 @@ def run(prop, tier, extra=None):
                "container_rule": "every sequence of %d add / add-with-spoofed-length / remove / serialize operations over 11 container "
                                  "kinds (TCP, IPv4, IPv6 extension headers, ICMPv6, DHCP, DHCPv6, 802.11 tagged parameters, PPPoE tags, "
                                  "RTP CSRC list, LLC frame formats, MLDv2 records), checked after every operation" % (3 if quick else 4)}
-    if prop == "C05":
-        # every other layer class libtins derives a field for: catalogue compositions read by the extended dissector (Stack2)
+    if prop in ("C05", "C02"):
+        # every other layer class: catalogue compositions.  C05: read by the extended dissector (Stack2);
+        # C02: size-exactness and the region monitor on the same compositions
         cat, g4 = vlib.tlc_generate("wire/CatGen", "CatGen.cfg" if quick else "CatGen_t.cfg", timeout=900)
         cat = sorted({vlib.canon_hash(s): s for s in cat}.values(), key=lambda s: (s["id"], s["rep"]))
-        p2 = vlib.Pipeline(prop, "wire_cat", "wire/CatTrace", "CatTrace.cfg")
-        p2.push(cat, "cat", timeout=3000)
-        p2.confirm(v, lambda scen, kind, detail, rec=None: {"family": "wire_cat", "kind": kind, "id": scen.get("id"),
+        p3 = vlib.Pipeline(prop, "wire_cat", "wire/CatTrace", "CatTrace_%s.cfg" % prop)
+        p3.push(cat, "cat", timeout=3000)
+        p3.confirm(v, lambda scen, kind, detail, rec=None: {"family": "wire_cat", "kind": kind, "id": scen.get("id"),
                                                              "lenattr": (rec or {}).get("lenattr"), "next": (rec or {}).get("next"),
                                                              "unaligned": (rec or {}).get("unaligned")})
-        st2 = {"catalogue_compositions": len({s["id"] for s in cat}), "catalogue_packets": len(cat), "catalogue_replay": p2.stats,
-               "catalogue_rule": "80 API-built compositions (51 catalogue entries + 29 extras: IPv4 first fragments with transport headers, "
+        st2.update({"catalogue_compositions": len({s["id"] for s in cat}), "catalogue_packets": len(cat), "catalogue_replay": p3.stats,
+               "catalogue_rule": "84 API-built compositions (51 catalogue entries + 33 extras: IPv4 first fragments with transport headers, "
                                  "PPPoE/MPLS/EAPOL below VLAN tags, AH in IPv4/IPv6, ICMP/ICMPv6 errors with and without RFC 4884 length and "
                                  "extension structures around the 128-octet boundary, RadioTap with FCS, loopback/SLL families, 802.3+SNAP/STP, "
-                                 "tunnels), each with %d seeded value sets, read by the TLA+ dissector Stack2 from 8 entry points" % (6 if quick else 40)}
+                                 "tunnels), each with %d seeded value sets, read by the TLA+ dissector Stack2 from 8 entry points (C05) / judged on size-exactness "
+                                 "and by the region monitor (C02)" % (6 if quick else 40)})
+        cat_exec = p3.stats["executions"]
     p.confirm(v, sig)
     rc = v.finish()
     distinct = {vlib.canon_hash(s) for s in scen if nontrivial(s)}
     cov = {
         "states": g.distinct + p.stats["tlc_states"], "transitions": g.generated + p.stats["tlc_generated"],
-        "traces_validated_against_impl": p.stats["executions"] + (p2.stats["executions"] if p2 else 0),
+        "traces_validated_against_impl": p.stats["executions"] + (p2.stats["executions"] if p2 else 0) + cat_exec,
         "samples": [scen[len(scen) // 3]] + [{k: (x[k] if k != "bytes" else x[k][:64]) for k in x if k in ("shape", "vals", "size", "bytes", "bpf", "hs")} for x in p.samples[1:2]],
         "evaluations": len(scen) + st2.get("container_histories", 0) + st2.get("catalogue_packets", 0),
         "distinct_nontrivial": len(distinct) + st2.get("container_histories", 0) + st2.get("catalogue_packets", 0),
@@ -105,7 +109,7 @@ def replay(prop, path):
     with open(path) as f:
         h = json.load(f)["replay"]["harness"]
     if h == "wire_cat":
-        return vlib.Pipeline(prop, "wire_cat", "wire/CatTrace", "CatTrace.cfg").replay_file(path)
+        return vlib.Pipeline(prop, "wire_cat", "wire/CatTrace", "CatTrace_%s.cfg" % prop).replay_file(path)
     if h == "containers":
         return vlib.Pipeline(prop, "containers", "wire/ContainerTrace", "ContainerTrace_%s.cfg" % prop).replay_file(path)
     return vlib.Pipeline(prop, "wire_pkt", "wire/WireTrace", "WireTrace_%s.cfg" % prop).replay_file(path)
